@@ -73,6 +73,7 @@ class Lst(K):
 @dataclass(frozen=True)
 class St(K):
     elem: K
+    tag: Optional[str] = field(default=None, compare=False)
 
     def __repr__(self):
         return f"SET[{self.elem!r}]"
